@@ -66,6 +66,18 @@ def run(ctx):
         ctx.violation("e2e-correspondence", dict(c, unchecked="correspondence model(g04 Creds.v forward)/implementation (end-to-end)"),
                       False, "%d exchanges where the model's messages and the received ones differ although the property predicate holds; "
                       "smallest: %s" % (len(only_model), explain(c)[:600]))
+    km, kp = bad.get("kcases", ([], []))
+    n_model_bad += len(km)
+    n_prop_bad += len(kp)
+    if kp:
+        c = g.smallest(kp)
+        ctx.violation("hop-by-hop-removal-leaves-a-field", c, True,
+                      "%d header maps after which Proxy-Authorization / Connection / a nominated field is still present (or Authorization was "
+                      "dropped unasked); smallest: %s" % (len(kp), json.dumps(c)[:300]))
+    elif km:
+        c = g.smallest(km)
+        ctx.violation("hop-by-hop-correspondence", dict(c, unchecked="correspondence model(g04 remove_hop_by_hop)/hopByHopModifier"), False,
+                      "%d header maps where model and modifier differ; smallest: %s" % (len(km), json.dumps(c)[:300]))
     mm, mp = bad.get("mcases", ([], []))
     n_model_bad += len(mm)
     n_prop_bad += len(mp)
@@ -117,7 +129,7 @@ def run(ctx):
         "distribution": {k: meta.get(k) for k in (
             "configs", "exchanges", "messages_received_by_hop_and_kind", "messages_carrying_authorization",
             "messages_carrying_proxy_authorization", "exchanges_by_upstream_selection", "exchanges_by_client_authorization_shape",
-            "exchanges_by_client_proxy_authorization_shape", "exchanges_by_method", "exchanges_by_scheme", "matcher_cases", "matcher_cases_table_accepted",
+            "exchanges_by_client_proxy_authorization_shape", "exchanges_by_method", "exchanges_by_scheme", "hop_by_hop_cases", "matcher_cases", "matcher_cases_table_accepted",
             "matcher_cases_with_a_match", "shard_case_counts")},
         "samples": [{"end_to_end": [explain(s)[:500] for s in (meta.get("samples") or [])]}],
     }
